@@ -227,9 +227,32 @@ theorem write_format_string_changed_witness :
 theorem allocate_relational_split_witness :
     printed .Allocate "allocate(c(merge(3,4,i==1)))" = some "ALLOCATE (C(MERGE(3,4,I = =1)))".toList := by
   decide +kernel
-/-- DEFECT: the blank COMMON block name `//` is dropped: `e` joins block `c` and the `,` vanishes -/
-theorem common_blank_name_dropped_witness :
-    printed .Common "common /c/ d, // e" = some "COMMON / c / d e".toList := by decide +kernel
+/-- COMMON, every item list: no block is dropped by the printer, a named block prints `/ name /`,
+    and a blank block that is not the first one prints its `//` (repo fix 7d52ea8; before it the
+    objects of the blank block silently joined the preceding block) -/
+theorem common_blocks_printed (first : Bool) (items : List (Str × List Str)) :
+    (commonBits first items).length = items.length := by
+  induction items generalizing first with
+  | nil => rfl
+  | cons x rest ih => obtain ⟨n, l⟩ := x; simp [commonBits, ih]
+
+theorem common_blank_block_keeps_slashes (l : List Str) (rest : List (Str × List Str)) :
+    commonBits false (([], l) :: rest) = (str "// " ++ join commaSp l) :: commonBits false rest := rfl
+
+theorem common_named_block_keeps_name (first : Bool) (n : Str) (hn : n ≠ []) (l : List Str)
+    (rest : List (Str × List Str)) :
+    commonBits first ((n, l) :: rest)
+      = (str "/ " ++ n ++ str " / " ++ join commaSp l) :: commonBits false rest := by
+  cases n with
+  | nil => exact absurd rfl hn
+  | cons c cs => rfl
+
+/-- regression witness for repo fix 7d52ea8: the blank common block keeps its `//`; the `,`
+    between the sets is optional in Fortran and is not printed -/
+theorem common_blank_name_kept :
+    printed .Common "common /c/ d, // e" = some "COMMON / c / d // e".toList ∧
+    printed .Common "COMMON / c / d // e" = some "COMMON / c / d // e".toList ∧
+    printed .Common "common // a, b /c/ d" = some "COMMON a, b / c / d".toList := by decide +kernel
 /-- `procedure a` in an interface body is printed as `MODULE PROCEDURE a` (keyword invented) -/
 theorem procedure_becomes_module_procedure_witness :
     printed .ModuleProcedure "procedure a" = some "MODULE PROCEDURE a".toList := by decide +kernel
@@ -265,8 +288,13 @@ theorem typedecl_function_name_witness :
 theorem implicit_selector_not_reparsable_witness :
     printed .Implicit "implicit character*10 (c)" = some "IMPLICIT CHARACTER(LEN=10) ( c )".toList ∧
     raisedBy .Implicit "IMPLICIT CHARACTER(LEN=10) ( c )" = some .assertion := by decide +kernel
-/-- a fixpoint where the first round changed the tokens -/
-example : printed .Common "COMMON / c / d e" = some "COMMON / c / d e".toList := by decide +kernel
+/-- the statement that types the enclosing FUNCTION `f` (repo fix dbd6721): alone it is ignored;
+    with other entities it stays and declares them (before, `g` was silently dropped) -/
+theorem function_typedecl_keeps_others :
+    printed .Integer "integer f, g" { parentName := "f".toList, parentIsFunction := true, depth := 1 }
+      = some "  INTEGER g".toList ∧
+    printed .Integer "integer f" { parentName := "f".toList, parentIsFunction := true, depth := 1 }
+      = some "  INTEGER f".toList := by decide +kernel
 /-- ordinary statements are fixpoints after one round -/
 example : printed .Use "USE, INTRINSIC :: iso_c_binding, ONLY: c_int, a => b"
     = some "USE, INTRINSIC :: iso_c_binding, ONLY: c_int, a => b".toList := by decide +kernel
@@ -296,6 +324,12 @@ open Fp.One3 in
 #print axioms bare_tokens_fixpoint
 open Fp.One3 in
 #print axioms analyze_text_unchanged
+open Fp.One3 in
+#print axioms common_blocks_printed
+open Fp.One3 in
+#print axioms common_blank_name_kept
+open Fp.One3 in
+#print axioms function_typedecl_keeps_others
 open Fp.One3 in
 #print axioms write_format_string_changed_witness
 open Fp.One3 in
